@@ -5,7 +5,7 @@ from runner import Case, CaseSet
 
 ID = 'C09'
 OBLIGATIONS = ['Props/C09.v', 'Props/Tie/titration_tie.v', 'Props/Tie/tables_tie.v']
-RULE = ('sequences: random classes (N 1..60), only-basic, only-acidic, only-R, no-titratable, the 20 singletons, and every '
+RULE = ('(getters are asked again, after get_isoelectric_point, at every pH its loop visited) sequences: random classes (N 1..60), only-basic, only-acidic, only-R, no-titratable, the 20 singletons, and every '
         'multiset of titratable residues of size <= 3 (thorough 4); pH grid {0, 14, each pKa, pKa +- 1, random}; getters get_FCR / '
         'get_NCPR / get_mean_net_charge / get_fraction_expanding with pH, get_isoelectric_point (its charge_at_pH calls are recorded '
         'and the loop replayed in Coq); pH in {-1e-9, -1, 14+1e-9, 15, 1e9} must be rejected; non-trivial = distinct sequence with a '
@@ -61,7 +61,7 @@ def exact_ncharge(seq, pH):
 def _one(seq):
     import localcider.backend.sequence as S
     o = SP(seq)
-    grid = sorted({0.0, 14.0, 7.4} | {v + d for v in PKA.values() for d in (-1, 0, 1) if 0 <= v + d <= 14})
+    grid = sorted({0.0, 14.0, 7.4, 7.0, 3.5, 10.5, 1.75, 5.25, 8.75, 12.25} | {v + d for v in PKA.values() for d in (-1, 0, 1) if 0 <= v + d <= 14})
     problems = []
     prev = None
     for pH in grid:
@@ -102,6 +102,15 @@ def _one(seq):
             problems.append({'why': 'no titratable residue but pI != 7.0', 'pI': pi})
     else:
         problems.append({'why': 'get_isoelectric_point did not return', 'impl': [st, pi]})
+    # the pH values the bisection visited, asked again through the getters (a memo shared with the loop must not leak)
+    for x, _ in calls:
+        if 0 <= x <= 14:
+            st2, v2 = call(lambda: (fnum(o.get_FCR(x)), fnum(o.get_NCPR(x)), fnum(o.get_mean_net_charge(x)), fnum(o.get_fraction_expanding(x))))
+            e2 = glue(seq, x)
+            if st2 != 'ok' or any(abs(a - b) > 1e-9 for a, b in zip(v2, e2)):
+                problems.append({'pH': x, 'why': 'getter after get_isoelectric_point differs from Henderson-Hasselbalch sums at a pH the loop visited',
+                                 'impl': [st2, v2], 'expected': e2})
+                break
     if len(calls) > 28:
         problems.append({'why': 'more than 28 charge evaluations (theorem C09_pI_never_raises bounds them by 28)', 'calls': len(calls)})
     worst = 0.0
